@@ -203,6 +203,12 @@ class AsPolynomialBody(Contract):
         from contracts.shapefn import MovedRaw, rewrap
         if isinstance(p, MovedRaw) and len(args) == 1 and set(kw) == {"names"}:
             return rewrap(ex, p, kw["names"], node)
+        if isinstance(p, Arr) and len(args) == 1 and not kw:
+            # number/array input kind of polynomial() (proved above): the constant polynomial array with that coefficient
+            r = Poly(ex.ctx, ex.ctx.fresh("const"), shape=p.shape, dtype=p.dtype, region=Region("fresh", "aspolynomial(array)"))
+            ex.ctx.assume(r.wf(ex.ctx))
+            r.constant_of = p
+            return r
         raise U("aspolynomial of this input kind", node)
 
 
